@@ -40,7 +40,7 @@ const bool no_exclude = std::getenv("VERIF_NO_EXCLUDE") != nullptr;
 // tolerances, all relative to the reference value of the bin
 const double TOL_SAME_E = 2e-6;    // e from x1 vs e from x2 (a few float roundings per member)
 const double TOL_INVERSE = 1e-5;   // apply(undo(x)) = x, as the design states
-const double TOL_GROUPING = 2e-5;  // other grouping / other entry point (attenuation: other summation order)
+const double TOL_GROUPING = 1e-4;  // other grouping with an attenuation member (other summation order in the projector); exact otherwise
 const double TOL_GEB = 2e-6;       // get_bin_efficiency vs e
 const double TOL_ATT = 1e-4;       // attenuation factors vs explicit matrix, as the design states
 const double TOL_EXACT_REF = 2e-6; // e vs reference for the classes without projector
@@ -660,7 +660,7 @@ check(const json& c)
           continue;
         const double d = std::fabs(a[u] - b[u]);
         if (b[u] != 0)
-          stats().maxi(tol == 0 ? "max rel dev whole-data vs viewgrams (same grouping)" : "max rel dev between groupings", d / std::fabs(b[u]));
+          stats().maxi(tol == 0 ? "max rel dev where identical results are required" : "max rel dev between groupings (attenuation member)", d / std::fabs(b[u]));
         if (!(d <= tol * std::fabs(b[u])))
           return Result::fail(cat(R.label, ": ", what, " differ at ", bin_str(env.ix.bins[u]), ": ", a[u], " vs ", b[u]));
       }
@@ -674,10 +674,12 @@ check(const json& c)
         {
           G.U1 = pass_viewgrams(Ng, G.sym, x1, true, env);
           G.A1 = pass_viewgrams(Ng, G.sym, x1, false, env);
-          Result r = compare(G.U1, U1, TOL_GROUPING, cat("undo with grouping ", gi, " and with grouping 0"));
+          // without a projector every grouping performs the same float operation per bin: identical results
+          const double tol_g = R.has_atten ? TOL_GROUPING : 0.;
+          Result r = compare(G.U1, U1, tol_g, cat("undo with grouping ", gi, " and with grouping 0"));
           if (r.failed())
             return r;
-          r = compare(G.A1, A1, TOL_GROUPING, cat("apply with grouping ", gi, " and with grouping 0"));
+          r = compare(G.A1, A1, tol_g, cat("apply with grouping ", gi, " and with grouping 0"));
           if (r.failed())
             return r;
         }
@@ -694,7 +696,7 @@ check(const json& c)
       // default argument (no symmetries given = trivial symmetries), possible when no projector dictates the grouping
       if (G.b.projectors.empty() || (G.fl.trivial_class))
         {
-          r = compare(pass_whole(Ng, SymPtr(), x1, true, env, false), G.U1, TOL_GROUPING, cat("undo(ProjData) with default symmetries and grouping ", gi));
+          r = compare(pass_whole(Ng, SymPtr(), x1, true, env, false), G.U1, R.has_atten ? TOL_GROUPING : 0., cat("undo(ProjData) with default symmetries and grouping ", gi));
           if (r.failed())
             return r;
         }
